@@ -447,7 +447,7 @@ CLAIMS["C06"]["text"] = CLAIMS["C06"]["text"] + (
     "current source on every run, is proved to refine one Eng.poll race of the model (TieRaceV.poll_tie: no panic, same outcome, same "
     "offset / done flag, same scripts, handed wakers and event trace; hypotheses: at least one child, Indexer.max = number of "
     "children, children answer like futures without panicking, not yet done), and Indexer::iter yields the rotated order Fix.rot. "
-    "The tuple variant remains tied differentially.")
+    "(The tuple variant: see the tuple tie below.)")
 
 def _fam(fn, thm, what):
     return (" Static tie of the poll function (" + thm + "): " + fn + ", translated from the current source on every run "
@@ -525,6 +525,10 @@ CLAIMS["C17"]["text"] += " The tuple container is tied in the same way (FcProps/
 CLAIMS["C09"]["text"] += _tup("zip (src/stream/zip/tuple.rs, Zip1..Zip12, also StreamExt::zip)", "FcProps/KTieZipT.lean: TieZipT.poll_tie, poll_tie_strong, drop_tie, new_wf",
     "the translated Zip::poll_next (children held as fields of the struct itself and read as one array, the row buffer <mod>::Output read as the array container's buffer, the dispatch `match index { <mod>::F => .. _ => unreachable!() }` folded behind assert!(index < N)) and PinnedDrop are proved to refine Eng.poll / Eng.drop of the policy zip")
 CLAIMS["C02"]["text"] += " And TieZipT.drop_tie (tuple zip: the buffered items of the unfinished row are released once)."
+CLAIMS["C06"]["text"] += _tup("race (src/future/race/tuple.rs, Race1..Race12, also FutureExt::race)", "FcProps/KTieRaceT.lean: TieRaceT.poll_tie, new_wf, new_poll_tie",
+    "the translated Race::poll (children held as fields of the struct and read as one array; the dispatch `if i == Indexes::F as usize { match <poll F> { Ready(o) => return, _ => continue } }` over the local #[repr(usize)] enum folded into one indexed body) is proved to refine Eng.poll of the policy race")
+CLAIMS["C10"]["text"] += _tup("chain (src/stream/chain/tuple.rs, Chain1..Chain12, also StreamExt::chain)", "FcProps/KTieChainT.lean: TieChainT.poll_tie, poll_tie_strong, new_wf",
+    "the translated Chain::poll_next (a Rust loop with fuel N + index + 1; the dispatch `match *this.index { <mod>::F => .. _ => unreachable!() }` folded behind assert!(index < N); the arm `v @ (Pending | Ready(Some(_))) => return v` written as the two arms it stands for) is proved to refine Eng.poll of the policy chain, also")
 CLAIMS["C07"]["text"] += (
     " Static tie of the Vec variant (FcProps/KTieRaceOkV.lean): RaceOk::poll and the constructor of Vec<Fut>::race_ok() "
     "(src/future/race_ok/vec/mod.rs) together with the helper enum MaybeDone (src/utils/poll_state/maybe_done.rs: new, poll, "
